@@ -1,7 +1,8 @@
 # CrossHair plugin (exec'd by `crosshair --extra_plugin` or by vf.ch_worker).
 # Stub S1 of DESIGN.md: formatting a symbolic / abstract value yields a placeholder instead of
-# realising it.  Contract assumed: format()/str() of int, float, str, timedelta never raises and
-# has no side effect.
+# realising it; formatting any other non-primitive object runs its own __format__/__str__ under
+# tracing (CrossHair's default would deep-realise every symbolic attribute of the object first).
+# Contract assumed: format()/str() of int, float, str, timedelta never raises and has no side effect.
 def _vf_install_format_stub():
     import crosshair.libimpl.builtinslib as B
     import crosshair.core as C
@@ -10,16 +11,67 @@ def _vf_install_format_stub():
     if getattr(B, "_vf_format_installed", False):
         return
     _orig = B._format
+    _plain = (int, float, str, bool, bytes, type(None), complex)
 
     def _format(obj, format_spec=""):
         with NoTracing():
             t = type(obj)
-            if t.__module__.startswith("crosshair") or getattr(t, "_vf_abstract", False):
-                return "<sym>"
-        return _orig(obj, format_spec)
+            symbolic = t.__module__.startswith("crosshair") or getattr(t, "_vf_abstract", False)
+            plain = t in _plain
+        if symbolic:
+            return "<sym>"
+        if plain:
+            return _orig(obj, format_spec)
+        with NoTracing():
+            fmt = getattr(t, "__format__", None)
+        if fmt is object.__format__ and format_spec == "":
+            return str(obj)
+        return fmt(obj, format_spec)
 
     C._PATCH_REGISTRATIONS[format] = _format
     B._format = _format
+
+    # int() of an abstract digit token (vf.tok.Digits) is the token's (symbolic) value.  The rest of
+    # the body is CrossHair 0.0.110's own `_int` (a wrapper would recurse: calls to `int` are only
+    # left unpatched when made from the registered patch's own code object).
+    from crosshair.core import ResumedTracing, realize, deep_realize
+    from crosshair.libimpl.builtinslib import SymbolicInt, AnySymbolicStr, CrossHairValue, name_of_type
+    _MISSING = B._MISSING
+    _ORD_OF_ZERO = ord("0")
+
+    def _int(val=0, base=_MISSING):
+        with NoTracing():
+            if getattr(type(val), "_vf_digits", False):
+                return val.value
+            if isinstance(val, SymbolicInt):
+                if base is not _MISSING:
+                    raise TypeError("int() can't convert non-string with explicit base")
+                return val
+            if isinstance(val, AnySymbolicStr):
+                with ResumedTracing():
+                    if base is _MISSING:
+                        base = 10
+                    elif not hasattr(base, "__index__"):
+                        raise TypeError(
+                            f"{name_of_type(type(base))} object cannot be interpreted as an integer"
+                        )
+                    if any([base < 2, base > 10, not val]):
+                        return int(realize(val), base=realize(base))
+                    ret = 0
+                    for ch in val:
+                        ch_num = ord(ch) - _ORD_OF_ZERO
+                        if any((ch_num < 0, ch_num >= base)):
+                            return int(realize(val))
+                        else:
+                            ret = (ret * base) + ch_num
+                    return ret
+            elif isinstance(val, CrossHairValue):
+                val = deep_realize(val)
+                base = deep_realize(base)
+        return int(val) if base is _MISSING else int(val, base=base)
+
+    C._PATCH_REGISTRATIONS[int] = _int
+    B._int = _int
     B._vf_format_installed = True
 
 
